@@ -1216,6 +1216,43 @@ func ReturnValue(r *ssa.Return, i int) ssa.Value {
 	return v
 }
 
+// ReturnedValues lists every value fn can return as its i-th result: the
+// operands of its Return instructions, and — when a defer made the builder
+// spill the results — the values stored into the result slot.
+func ReturnedValues(fn *ssa.Function, i int) []ssa.Value {
+	var out []ssa.Value
+	seen := map[ssa.Value]bool{}
+	add := func(v ssa.Value) {
+		if !seen[v] {
+			seen[v] = true
+			out = append(out, v)
+		}
+	}
+	for _, b := range fn.Blocks {
+		r, ok := b.Instrs[len(b.Instrs)-1].(*ssa.Return)
+		if !ok || i >= len(r.Results) {
+			continue
+		}
+		v := r.Results[i]
+		if ld, ok := v.(*ssa.UnOp); ok && ld.Op == token.MUL {
+			if a, ok := ld.X.(*ssa.Alloc); ok && a.Referrers() != nil {
+				n := 0
+				for _, ref := range *a.Referrers() {
+					if st, ok := ref.(*ssa.Store); ok && st.Addr == a {
+						add(st.Val)
+						n++
+					}
+				}
+				if n > 0 {
+					continue
+				}
+			}
+		}
+		add(v)
+	}
+	return out
+}
+
 // FeasiblePaths enumerates loop-free paths from entry to target's block like
 // AcyclicPaths, but prunes at every If whose condition resolves, along the
 // path so far, to a boolean constant (flag variables assigned constants on
